@@ -14,7 +14,8 @@ def run(tier):
                 "is decompressed by python zlib/lzma (single complete stream required) and split into the chunks written; TLC "
                 "compares with the scenario; chunk lengths around every multiple of 4 KiB (16 KiB quick) up to 96 KiB behind a "
                 "backlog of 384 KiB incompressible data under AddressSanitizer; incompressible outputs through the residues of the "
-                "compressors' chunking; sessions run during stack unwinding; distinct = scenarios")
+                "compressors' chunking; sessions run during stack unwinding; 16 threads each driving its own compressed output; "
+                "distinct = scenarios")
     chk.assumptions = ["TLC + CommunityModules", "python3 zlib/lzma as the independent decompressors",
                        "driver memcmp of decompressed content against the chunks it generated"]
     for named in (True, False):
@@ -38,7 +39,22 @@ def run(tier):
                         "steps": [{"op": "w", "c": 1}, {"op": "rot"}, {"op": "w", "c": 2}, {"op": "w", "c": 1}, {"op": "rot"}, {"op": "w", "c": 3 if tier == "thorough" else 2}],
                         "pre": []})
     m3 = run_scenarios(chk, "c16", fsc, {"C14"}, "c14f")
-    chk.distinct = m["execs"] + m2["execs"] + m3["execs"]
+    # independent compressing outputs driven by different threads at the same time (one exporter per thread): each is
+    # still a single complete stream holding its thread's data (what belongs to a compression step belongs to its writer)
+    import histgen
+    from checks.c20 import run_threads
+    from checks.exporter_common import rng_for
+    rng2 = rng_for(chk, 14)
+    th = []
+    for i in range(48 if tier == "quick" else 400):
+        h = histgen.gen_history(rng2, nops=rng2.choice([40, 80]), comp=["gz", "xz"][i % 2], out=["file", "fd"][(i // 2) % 2], sizes=[10000],
+                                qr_mode="dense", rot=(i % 4 == 0))
+        for o in h["ops"]:
+            if o["op"] == "mm" and rng2.random() < 0.5:
+                o["r"]["mm_payload"] = [rng2.getrandbits(8) for _ in range(rng2.choice([3000, 20000]))]
+        th.append(h)
+    m4 = run_threads(chk, "plain", 16, 2, th, "c14t", relevant={"C14"})
+    chk.distinct = m["execs"] + m2["execs"] + m3["execs"] + m4["execs"]
     return chk.finish()
 
 
